@@ -77,7 +77,7 @@ def strategy_(draw, thorough):
             step["frame"] = nf
             step["rgo"] = draw(st.one_of(st.none(), st.integers(1, max(1, nf["n"]))))
             if k == "write_row_groups":
-                step["sort_key"] = draw(st.sampled_from([None, "partition", "const"]))
+                step["sort_key"] = draw(st.sampled_from([None, "partition", "const", "newest_first"]))
                 step["sort_pnames"] = draw(st.booleans())
             if k == "overwrite" and nf["n"] == 0:
                 nf["n"] = 1
@@ -97,6 +97,7 @@ class Model:
         self.pn = pn
         self.rows = collections.OrderedDict()   # rid -> (key, {col: cell})
         self.next = 0
+        self.ordered = True
 
     def add(self, fr, vnames):
         n = fr["n"]
@@ -169,7 +170,12 @@ def run_case(case):
                         for rid in [r_ for r_, (k_, _) in model.rows.items() if k_ in newkeys]:
                             del model.rows[rid]
                     else:
-                        sk = {None: None, "partition": (lambda rg: partitions(rg) or ""), "const": (lambda rg: 0)}[step.get("sort_key")]
+                        sk = {None: None, "partition": (lambda rg: partitions(rg) or ""), "const": (lambda rg: 0),
+                              "newest_first": _newest_first}[step.get("sort_key")]
+                        if step.get("sort_key") == "newest_first":
+                            # (row groups are no longer in write order within a partition: the order check stops here)
+                            model.ordered = False
+                            labels.append("row_groups_reordered_by_sort_key")
                         pf.write_row_groups(dfk, row_group_offsets=step["rgo"], sort_key=sk, sort_pnames=bool(step.get("sort_pnames")))
                     for rid, key, cells in new:
                         model.rows[rid] = (key, cells)
@@ -210,6 +216,12 @@ def run_case(case):
     return ok(nt, labels + ["mutating:%d" % min(len(mutating), 6)])
 
 
+def _newest_first(rg):
+    import re
+    m = re.search(r"part\.(\d+)\.parquet$", rg.columns[0].file_path or "")
+    return -int(m.group(1)) if m else 0
+
+
 def _verify(path, model, colspec, vnames, pn):
     import fastparquet
     try:
@@ -228,7 +240,7 @@ def _verify(path, model, colspec, vnames, pn):
         return ("rows" + ("_duplicated" if dup else "_resurrected" if extra else "_lost"),
                 "row ids read %r; unexpected %r; missing %r" % (sorted(rr)[:30], extra, lost))
     last = {}
-    for rid in rr:
+    for rid in (rr if model.ordered else []):
         key = model.rows[rid][0]
         if last.get(key, -1) > rid:
             return ("partition_order", "rows of partition %r not in write order: %r" % (key, rr[:40]))
